@@ -184,3 +184,29 @@ Definition nothing_more_b (x : input) (o : obs) : bool :=
   end.
 Definition spec_b (x : input) (o : obs) : bool :=
   conf_main_b x o && conf_adv_b x o && live_b x o && recover_b x o && nothing_more_b x o.
+
+(* ------------------------------------------------------------------------------------------------ *)
+(* What a call of the server API REQUESTS (from the documentation, not from the code: docstring of
+   create_authn_response + docs/howto/config.rst, idp/aa directives sign_response, sign_assertion, encrypt_assertion,
+   encrypted_advice_attributes, encrypt_assertion_self_contained, "Can be True or False. Default is ..."):
+   an option is what the caller passes; if the caller passes nothing (or None) it is what the operator of the IdP put
+   in the configuration; if that is silent too it is the documented default (False, False, False, False, True).
+   The property is then read on the call so understood: "encryption is requested" includes "requested in the IdP
+   configuration by a caller that passes no encrypt_assertion of its own". *)
+Definition asked (doc_default : bool) (o : optsrc) : bool :=
+  match o_arg o with
+  | Passed b => b
+  | _ => match o_cfg o with Some b => b | None => doc_default end
+  end.
+Definition requested (k : call) : input :=
+  match k with
+  | (x, None) => x
+  | (x, Some s) =>
+      match i_entry x with
+      | Entity => x
+      | Server => with_flags x (asked false (s_sr s)) (asked false (s_sa s)) (asked false (s_ea s))
+                               (asked false (s_eadv s)) (asked true (s_sc s))
+      end
+  end.
+Definition spec_call (k : call) (o : obs) : Prop := spec (requested k) o.
+Definition spec_call_b (k : call) (o : obs) : bool := spec_b (requested k) o.
